@@ -388,6 +388,11 @@ class _Raised(Exception):
         self.name = name
 
 
+class _LoopCtl(Exception):
+    def __init__(self, kind):
+        self.kind = kind
+
+
 class _DtMini(Mini):
     """Evaluates the dtype gate for ONE concrete dtype of the input array (the domain of dtypes is finite and enumerated completely)."""
 
@@ -445,11 +450,49 @@ class _DtMini(Mini):
                 if k in base:
                     return base[k]
                 raise _Raised('KeyError')
+            if isinstance(base, (tuple, list)):
+                k = self.ev(e.slice)
+                if isinstance(k, int) and not isinstance(k, bool):
+                    if -len(base) <= k < len(base):
+                        return base[k]
+                    raise _Raised('IndexError')
         if isinstance(e, ast.Set):
             return tuple(self.ev(x) for x in e.elts)
+        if isinstance(e, ast.Dict):
+            out = {}
+            for k, v in zip(e.keys, e.values):
+                if k is None:
+                    sp = self.ev(v)
+                    if not isinstance(sp, dict):
+                        raise Undecided(f'dtype gate: ** of a non-dict in {u(e)}')
+                    out.update(sp)
+                else:
+                    out[self.ev(k)] = self.ev(v)
+            return out
+        if isinstance(e, ast.DictComp) and len(e.generators) == 1:
+            g = e.generators[0]
+            out = {}
+            for it in self.ev(g.iter):
+                saved = dict(self.env)
+                if isinstance(g.target, ast.Name):
+                    self.env[g.target.id] = it
+                elif isinstance(g.target, ast.Tuple) and isinstance(it, (tuple, list)) and len(it) == len(g.target.elts) and all(isinstance(t, ast.Name) for t in g.target.elts):
+                    for t, v in zip(g.target.elts, it):
+                        self.env[t.id] = v
+                else:
+                    raise Undecided(f'dtype gate: comprehension target in {u(e)}')
+                if all(self.truth(self.ev(c)) for c in g.ifs):
+                    out[self.ev(e.key)] = self.ev(e.value)
+                self.env = saved
+            return out
         return super().ev(e)
 
     def compare(self, op, l, r, node):
+        if isinstance(op, (ast.Is, ast.IsNot)):
+            if l is None or r is None:
+                res = l is None and r is None
+                return res if isinstance(op, ast.Is) else not res
+            raise Undecided(f'dtype gate: identity test {u(node)}')
         if isinstance(op, (ast.In, ast.NotIn)) and isinstance(r, (tuple, list, dict, set, frozenset)):
             res = any(l == x for x in r)
             return res if isinstance(op, ast.In) else not res
@@ -475,8 +518,31 @@ class _DtMini(Mini):
             return dict(v) if not isinstance(v, dict) else dict(v)
         if f == 'zip':
             return tuple(zip(*[self.ev(a) for a in e.args]))
+        if isinstance(e.func, ast.Name) and e.func.id in self.module.functions and e.func.id not in self.env:
+            # a helper of the same module (memoisation decorators are transparent for a pure function of the dtype)
+            callee_fi = self.module.functions[e.func.id]
+            decos = [u(d) for d in callee_fi.node.decorator_list]
+            if any(not d.startswith(('lru_cache', 'functools.lru_cache', 'cache', 'functools.cache')) for d in decos) or self.depth > 3:
+                raise Undecided(f'dtype gate: call {u(e)}')
+            ps = callee_fi.params()
+            if e.keywords or len(e.args) != len(ps):
+                raise Undecided(f'dtype gate: call {u(e)}')
+            sub = _DtMini({p_: self.ev(a) for p_, a in zip(ps, e.args)}, self.module)
+            sub.depth = self.depth + 1
+            body = [st for st in callee_fi.node.body if not (isinstance(st, ast.Expr) and isinstance(st.value, ast.Constant))]
+            try:
+                sub.run(body)
+            except Return as r:
+                return r.value
+            return None
         if isinstance(e.func, ast.Attribute):
             base = self.ev(e.func.value)
+            if isinstance(base, (tuple, list)) and e.func.attr == 'index' and len(e.args) == 1:
+                k = self.ev(e.args[0])
+                for i_, x in enumerate(base):
+                    if x == k:
+                        return i_
+                raise _Raised('ValueError')
             if isinstance(base, _ARR) and e.func.attr in ('view', 'astype') and e.args:
                 return _ARR(_DT.of(self.ev(e.args[0])), e.func.attr if base.how == 'same' else f'{base.how}+{e.func.attr}')
             if isinstance(base, dict) and e.func.attr == 'get':
@@ -488,9 +554,37 @@ class _DtMini(Mini):
             return Opaque(f)
         raise Undecided(f'dtype gate: call {u(e)}')
 
+    depth = 0
+
     def stmt(self, s):
         if isinstance(s, ast.Raise):
             raise _Raised(raised_name(s) or 'exception')
+        if isinstance(s, ast.For) and not s.orelse or isinstance(s, ast.For):
+            items = self.ev(s.iter)
+            if not isinstance(items, (tuple, list, dict)):
+                raise Undecided(f'dtype gate: loop over {u(s.iter)}')
+            broke = False
+            for it in list(items):
+                if isinstance(s.target, ast.Name):
+                    self.env[s.target.id] = it
+                elif isinstance(s.target, ast.Tuple) and all(isinstance(t, ast.Name) for t in s.target.elts) and isinstance(it, (tuple, list)) and len(it) == len(s.target.elts):
+                    for t, v in zip(s.target.elts, it):
+                        self.env[t.id] = v
+                else:
+                    raise Undecided(f'dtype gate: loop target {u(s.target)}')
+                try:
+                    self.run(s.body)
+                except _LoopCtl as c:
+                    if c.kind == 'break':
+                        broke = True
+                        break
+            if not broke:
+                self.run(s.orelse)
+            return
+        if isinstance(s, ast.Break):
+            raise _LoopCtl('break')
+        if isinstance(s, ast.Continue):
+            raise _LoopCtl('continue')
         if isinstance(s, ast.Try):
             try:
                 self.run(s.body)
@@ -579,29 +673,67 @@ def check_dtype_gate(ctx):
                     ok = m.resolve_call(f2, a) == 'gambit.metric._cast_sigs_array'
                 rep.add('M8', f2.site(call), f'operand {k + 1} of the kernel call passes through the dtype gate', ok,
                         expected='_cast_sigs_array(...)', found=found, stmt=f'{tgt.rsplit(".", 1)[1]} arg{k + 1}')
-    rep.floor('M8', 'kernel call sites in metric.py', ncalls, 4)
-    # argument order of the thin Python wrappers
-    for fname in ('jaccard', 'jaccarddist'):
+    rep.floor('M8', 'kernel call sites in metric.py', ncalls, 3)
+    # the thin Python wrappers, by value flow: every returned value is the kernel value of (gate(p1), gate(p2)) - for the index
+    # also 1 - <such a distance> (the Cython jaccard is itself 1 - c_jaccarddist, rule M7 above) - on an unconditional path
+    GATE = 'gambit.metric._cast_sigs_array'
+
+    def operand(f2, e, at, depth=0):
+        """('gated', p) | ('raw', p) | ('other', text): where the value of e at statement `at` comes from."""
+        if isinstance(e, ast.Call) and m.resolve_call(f2, e) == GATE and len(e.args) == 1 and not e.keywords:
+            k, w = operand(f2, e.args[0], at, depth + 1)
+            return ('gated', w) if k == 'raw' else ('other', u(e))
+        if isinstance(e, ast.Name) and depth < 6:
+            d = reaching_def(f2.node, e.id, at)
+            if d is PARAM:
+                return ('raw', e.id)
+            if d not in (None, AMBIGUOUS):
+                v = def_value(d)
+                if v is not None:
+                    return operand(f2, v, d, depth + 1)
+        return ('other', u(e))
+
+    def distance_form(f2, e, at, ps, depth=0):
+        """True when e is the kernel distance of the function's own two parameters, in order."""
+        if isinstance(e, ast.Name) and depth < 6:
+            d = reaching_def(f2.node, e.id, at)
+            if d not in (None, PARAM, AMBIGUOUS) and def_value(d) is not None:
+                return distance_form(f2, def_value(d), d, ps, depth + 1)
+            return False
+        if not isinstance(e, ast.Call):
+            return False
+        tgt = m.resolve_call(f2, e)
+        if tgt == f'{PYX}.jaccarddist' and len(e.args) == 2 and not e.keywords:
+            return [operand(f2, a, at) for a in e.args] == [('gated', ps[0]), ('gated', ps[1])]
+        if tgt == 'gambit.metric.jaccarddist' and f2.qualname != 'gambit.metric.jaccarddist' and len(e.args) == 2 and not e.keywords:
+            return [operand(f2, a, at) for a in e.args] == [('raw', ps[0]), ('raw', ps[1])]
+        return False
+
+    def index_form(f2, e, at, ps, depth=0):
+        if isinstance(e, ast.Name) and depth < 6:
+            d = reaching_def(f2.node, e.id, at)
+            if d not in (None, PARAM, AMBIGUOUS) and def_value(d) is not None:
+                return index_form(f2, def_value(d), d, ps, depth + 1)
+            return False
+        if isinstance(e, ast.BinOp) and isinstance(e.op, ast.Sub) and isinstance(e.left, ast.Constant) and e.left.value in (1, 1.0) and not isinstance(e.left.value, bool):
+            return distance_form(f2, e.right, at, ps)
+        if isinstance(e, ast.Call) and m.resolve_call(f2, e) == f'{PYX}.jaccard' and len(e.args) == 2 and not e.keywords:
+            return [operand(f2, a, at) for a in e.args] == [('gated', ps[0]), ('gated', ps[1])]
+        return False
+
+    for fname, form in (('jaccard', index_form), ('jaccarddist', distance_form)):
         f2 = m.func(f'gambit.metric.{fname}')
         ps = f2.params()
-        rets = [s for s in f2.node.body if isinstance(s, ast.Return)]
-        rep.require(len(rets) >= 1 and isinstance(rets[-1].value, ast.Call), f'metric.{fname}: does not end in a kernel call')
-        rets = [rets[-1]]
-        call = rets[0].value
-        tgt = m.resolve_call(f2, call)
-        rep.add('M7', f2.site(call), f'metric.{fname} forwards to the Cython {fname} (not crossed) with both operands',
-                tgt == f'{PYX}.{fname}' and [u(a) for a in call.args] == ps, expected=f'{PYX}.{fname}({", ".join(ps)})',
-                found=f'{tgt}({", ".join(u(a) for a in call.args)})', stmt=call)
+        rep.require(len(ps) == 2, f'metric.{fname}: expected two parameters')
         all_rets = [s for s in stmts_in(f2.node.body) if isinstance(s, ast.Return)]
+        rep.require(all_rets, f'metric.{fname}: no return')
         gm2 = guard_map(f2.node)
-        extra = [r for r in all_rets if r is not rets[0]]
-        rep.add('M7', f2.site(extra[0] if extra else rets[0]), f'metric.{fname}: every result comes from the kernel (no shortcut / special-case return)', not extra and not path_atoms(gm2[rets[0]]),
-                expected='single unconditional return of the kernel value', found=[(u(r.value), sorted(path_atoms(gm2[r]))) for r in extra] or sorted(path_atoms(gm2[rets[0]])), stmt=f'{fname} returns')
-        for pname in ps:
-            d = [s for s in f2.node.body if isinstance(s, ast.Assign) and isinstance(s.targets[0], ast.Name) and s.targets[0].id == pname]
-            ok = len(d) == 1 and isinstance(d[0].value, ast.Call) and [u(a) for a in d[0].value.args] == [pname]
-            rep.add('M8', f2.site(d[0] if d else call), f'{pname} is cast from itself (operands not crossed)', ok, expected=f'{pname} = _cast_sigs_array({pname})',
-                    found=u(d[0]) if d else None, stmt=f'{fname}:{pname}')
+        bad = [r for r in all_rets if r.value is None or not form(f2, r.value, r, ps)]
+        rep.add('M7', f2.site(bad[0] if bad else all_rets[0]), f'metric.{fname} returns the kernel value of its own two operands, each through the dtype gate, in order (for the index: the Cython jaccard or 1 - that distance)',
+                not bad, expected=f'{PYX}.{fname}(gate({ps[0]}), gate({ps[1]}))' + (' | 1 - distance' if fname == 'jaccard' else ''), found=[u(r.value) for r in bad] or [u(r.value) for r in all_rets], stmt=f'{fname} value')
+        cond = [(u(r.value), sorted(path_atoms(gm2[r]))) for r in all_rets if path_atoms(gm2[r])]
+        rep.add('M7', f2.site(all_rets[0]), f'metric.{fname}: every result comes from the kernel (no shortcut / special-case return)', len(all_rets) == 1 and not cond,
+                expected='single unconditional return of the kernel value', found=cond or [u(r.value) for r in all_rets], stmt=f'{fname} returns')
 
 
 def check(ctx):
@@ -631,6 +763,16 @@ _M = 'src/gambit/_cython/metric.pyx'
 _P = 'src/gambit/metric.py'
 _T = 'src/gambit/_cython/types.pxd'
 VARIANTS = [
+    V('E: casts inlined into the kernel call', 'E', _P, "\tcoords1 = _cast_sigs_array(coords1)\n\tcoords2 = _cast_sigs_array(coords2)\n\treturn _cmetric.jaccarddist(coords1, coords2)\n", "\treturn _cmetric.jaccarddist(_cast_sigs_array(coords1), _cast_sigs_array(coords2))\n"),
+    V('twin: inlined casts, second operand is the first', 'B', _P, "\tcoords1 = _cast_sigs_array(coords1)\n\tcoords2 = _cast_sigs_array(coords2)\n\treturn _cmetric.jaccarddist(coords1, coords2)\n", "\treturn _cmetric.jaccarddist(_cast_sigs_array(coords1), _cast_sigs_array(coords1))\n", 'M7'),
+    V('twin: inlined casts, one operand not gated', 'B', _P, "\tcoords1 = _cast_sigs_array(coords1)\n\tcoords2 = _cast_sigs_array(coords2)\n\treturn _cmetric.jaccarddist(coords1, coords2)\n", "\treturn _cmetric.jaccarddist(_cast_sigs_array(coords1), coords2)\n", 'M7'),
+    V('E: index as one minus the Python distance', 'E', _P, "\tcoords1 = _cast_sigs_array(coords1)\n\tcoords2 = _cast_sigs_array(coords2)\n\treturn _cmetric.jaccard(coords1, coords2)\n", "\treturn 1 - jaccarddist(coords1, coords2)\n"),
+    V('twin: index as the distance itself', 'B', _P, "\tcoords1 = _cast_sigs_array(coords1)\n\tcoords2 = _cast_sigs_array(coords2)\n\treturn _cmetric.jaccard(coords1, coords2)\n", "\treturn jaccarddist(coords1, coords2)\n", 'M7'),
+    V('twin: index as two minus the distance', 'B', _P, "\tcoords1 = _cast_sigs_array(coords1)\n\tcoords2 = _cast_sigs_array(coords2)\n\treturn _cmetric.jaccard(coords1, coords2)\n", "\treturn 2 - jaccarddist(coords1, coords2)\n", 'M7'),
+    V('E: gate as a loop over (signed, unsigned) pairs', 'E', _P, "\tif dt in _COORDS_UNSIGNED_DTYPES:\n\t\treturn arr\n\tif dt in _COORDS_SIGNED_DTYPES:\n\t\tnew_dt = np.dtype(f'u{dt.itemsize}')\n\t\treturn arr.view(new_dt)\n",
+      "\tfor sdt, udt in zip(_COORDS_SIGNED_DTYPES, _COORDS_UNSIGNED_DTYPES):\n\t\tif dt == udt:\n\t\t\treturn arr\n\t\tif dt == sdt:\n\t\t\treturn arr.view(udt)\n"),
+    V('twin: pair loop over wrongly paired dtypes', 'B', _P, "\tif dt in _COORDS_UNSIGNED_DTYPES:\n\t\treturn arr\n\tif dt in _COORDS_SIGNED_DTYPES:\n\t\tnew_dt = np.dtype(f'u{dt.itemsize}')\n\t\treturn arr.view(new_dt)\n",
+      "\tfor sdt, udt in zip(_COORDS_SIGNED_DTYPES, [np.dtype('u4'), np.dtype('u8'), np.dtype('u2')]):\n\t\tif dt == udt:\n\t\t\treturn arr\n\t\tif dt == sdt:\n\t\t\treturn arr.view(udt)\n", 'M8'),
     V('signed dtypes mapped through a table with a wrong row (seeded C02c)', 'B', _P, "_COORDS_SIGNED_DTYPES = [np.dtype(f'i{s}') for s in [2, 4, 8]]\n",
       "_COORDS_SIGNED_DTYPES = {np.dtype('i2'): np.dtype('u2'), np.dtype('i4'): np.dtype('u4'), np.dtype('i8'): np.dtype('u4')}\n", 'M8',
       also=((_P, "\t\tnew_dt = np.dtype(f'u{dt.itemsize}')\n\t\treturn arr.view(new_dt)\n", "\t\treturn arr.view(_COORDS_SIGNED_DTYPES[dt])\n"),)),
